@@ -478,7 +478,13 @@ func (r *runner) checkIndexes(rows []map[string]any) {
 			got = "present"
 		}
 		if adm := admissible(ws); adm[got] == "" {
-			r.fail(hx.Failf("C16/accounting/index/"+got, "index %s is %s at the end; acknowledged CreateIndex/DropIndex calls admit %v\n%s", name, got, adm, r.history()))
+			sig := "C16/accounting/index/" + got
+			if r.otherIndexChangedMeanwhile(name, ws) {
+				// the index list is part of the collection description, which CreateIndex/DropIndex save
+				// as a whole from the (possibly stale) collection object they are called on
+				sig = sigIndexLostUpdate
+			}
+			r.fail(hx.Failf(sig, "index %s is %s at the end; acknowledged CreateIndex/DropIndex calls admit %v\n%s", name, got, adm, r.history()))
 		}
 	}
 	// index content: a filter served by the index must agree with the documents themselves
@@ -538,6 +544,10 @@ func (r *runner) checkIndexes(rows []map[string]any) {
 					}
 				}
 				switch {
+				case r.indexOpsOnDifferentIndexesOverlapped():
+					// a description saved from a stale collection object resurrects a dropped index without
+					// its entries, or drops one whose entries stay behind
+					sig = sigIndexLostUpdate
 				case skew == len(diff):
 					// CreateIndex scans the documents of its snapshot; a write that commits meanwhile did not
 					// see the index either: neither side indexes the document and both commits succeed
@@ -614,6 +624,47 @@ func (r *runner) explainedByStaleDocumentUpdate(id string) bool {
 				if overlap(w.Start, w.End, os, oe) {
 					return true
 				}
+			}
+		}
+	}
+	return false
+}
+
+// otherIndexChangedMeanwhile: an acknowledged CreateIndex/DropIndex of a different index overlapped
+// one of the acknowledged calls on this index that is not overwritten by a later one.
+func (r *runner) otherIndexChangedMeanwhile(name string, ws []regWrite) bool {
+	for i, w := range ws {
+		if !w.certain || w.who == "setup" {
+			continue
+		}
+		last := true
+		for j, x := range ws {
+			if i != j && x.certain && hb(w, x) {
+				last = false
+			}
+		}
+		if !last {
+			continue
+		}
+		for _, o := range r.calls {
+			if (o.Op.K == kCreateIndex || o.Op.K == kDropIndex) && o.Note != name && o.Status == stOK && overlap(w.vs, w.ve, o.Start, o.End) {
+				return true
+			}
+		}
+	}
+	return false
+}
+
+// indexOpsOnDifferentIndexesOverlapped: two acknowledged CreateIndex/DropIndex calls on different
+// indexes overlapped in time.
+func (r *runner) indexOpsOnDifferentIndexesOverlapped() bool {
+	for _, a := range r.calls {
+		if (a.Op.K != kCreateIndex && a.Op.K != kDropIndex) || a.Status != stOK {
+			continue
+		}
+		for _, b := range r.calls {
+			if (b.Op.K == kCreateIndex || b.Op.K == kDropIndex) && b.Status == stOK && b.Note != a.Note && overlap(a.Start, a.End, b.Start, b.End) {
+				return true
 			}
 		}
 	}
